@@ -222,6 +222,14 @@ HARNESSES = {'roundtrip': h_roundtrip, 'canonical_roundtrip': h_canonical_roundt
              'map_boundary': h_map_boundary}
 
 
+def finding_key(job, failure):
+    return f"{job['harness']}:{failure['label']}:{job['params'].get('smi', '')}"
+
+
+# conjugated diene in a ring: spellings that close the ring with one of the stereo double bonds (recorded finding)
+RING_DIENES = ['C1CCCCCC/C=C/C=C/1']
+
+
 def jobs(tier):
     T = tier == 'thorough'
     J = []
@@ -233,6 +241,9 @@ def jobs(tier):
               'max_failures': 1})
     for s in seeds.BIG_STEREO:
         J.append({'harness': 'canonical_roundtrip', 'params': {'smi': s}, 'budget_s': 300, 'weight': 5})
+    for s in RING_DIENES:
+        J.append({'harness': 'roundtrip', 'params': {'smi': s}, 'budget_s': 900, 'validate_every': 50, 'weight': 200,
+                  'max_failures': 50})
     J.append({'harness': 'map_boundary', 'budget_s': 60, 'max_failures': 20})
     for s, k in FREE:
         J.append({'harness': 'injective', 'params': {'smi': s, 'kind': k}, 'budget_s': 300})
